@@ -118,6 +118,8 @@ impl Storage for DiskCache {
 
         self.pool
             .spawn_blocking(move || {
+                #[cfg(sccache_verif)]
+                crate::verif_hooks::sync("get.before_lock", &path, 0);
                 let io = match lru.lock().unwrap().get_or_init()?.get(&path) {
                     Ok(f) => f,
                     Err(LruError::FileNotInCache) => {
@@ -130,6 +132,8 @@ impl Storage for DiskCache {
                     }
                     Err(_) => unreachable!(),
                 };
+                #[cfg(sccache_verif)]
+                crate::verif_hooks::sync("get.opened", &path, 0);
                 let hit = CacheRead::from(io)?;
                 Ok(Cache::Hit(hit))
             })
@@ -152,16 +156,26 @@ impl Storage for DiskCache {
             .spawn_blocking(move || {
                 let start = Instant::now();
                 let v = entry.finish()?;
+                #[cfg(sccache_verif)]
+                let verif_key = key.clone();
+                #[cfg(sccache_verif)]
+                crate::verif_hooks::sync("put.before_reserve", &verif_key, v.len() as u64);
                 let mut f = lru
                     .lock()
                     .unwrap()
                     .get_or_init()?
                     .prepare_add(key, v.len() as u64)?;
+                #[cfg(sccache_verif)]
+                crate::verif_hooks::sync("put.reserved", &verif_key, v.len() as u64);
                 if let Err(e) = f.as_file_mut().write_all(&v) {
                     lru.lock().unwrap().get().unwrap().abandon(f);
                     return Err(e.into());
                 }
+                #[cfg(sccache_verif)]
+                crate::verif_hooks::sync("put.written", &verif_key, v.len() as u64);
                 lru.lock().unwrap().get().unwrap().commit(f)?;
+                #[cfg(sccache_verif)]
+                crate::verif_hooks::sync("put.committed", &verif_key, v.len() as u64);
                 Ok(start.elapsed())
             })
             .await?
